@@ -7,7 +7,7 @@ From Steady Require Import SteadyLoop GenSteadyFacts SteadyLoopProofs Relax.
 
 Definition expected_ss_facts : ss_facts :=
   mkSSFacts 100%Z 1000%N CmpLt NormL2 PrevCopy RelDivPrev ExhaustFail true.
-Definition expected_plumb_facts : plumb_facts := mkPlumb true true.
+Definition expected_plumb_facts : plumb_facts := mkPlumb true true (4722366482869645 # 4722366482869645213696)%Q.
 (** the same loop as it was before commit 0b233ce (y2 = integ.integrate(t), no copy) *)
 Definition alias_ss_facts : ss_facts :=
   mkSSFacts 100%Z 1000%N CmpLt NormL2 PrevAlias RelDivPrev ExhaustFail true.
@@ -93,6 +93,25 @@ Section AtPinned.
     intros tol y0 c Hy Hc.
     pose proof (rel_accumulation_exact gen_ss_facts gen_copy gen_l2lt tol y0 c Hy Hc) as H.
     rewrite gen_max in H. apply H. lia.
+  Qed.
+  Lemma p_plumbing : forall (tol : Q) (rel : bool) (y0 : vec) (y : nat -> vec),
+    (ss_run gen_ss_facts tol rel y0 y = SSNoSteady ->
+       exists s, sim_to_steady sim_fresh (ss_run gen_ss_facts tol rel y0 y) = Some s
+                 /\ get_result s = RError ENoSteadyState)
+    /\ (ss_run gen_ss_facts (pf_default_tol gen_plumb_facts) rel y0 y = SSNoSteady ->
+         steady_state_row gen_plumb_facts gen_ss_facts rel y0 y = Some RowNaN)
+    /\ (forall t v, ss_run gen_ss_facts tol rel y0 y = SSSteady t v ->
+         exists s, sim_to_steady sim_fresh (ss_run gen_ss_facts tol rel y0 y) = Some s
+                   /\ get_result s = RSimulation [(t, v)])
+    /\ (forall t v, ss_run gen_ss_facts (pf_default_tol gen_plumb_facts) rel y0 y = SSSteady t v ->
+         steady_state_row gen_plumb_facts gen_ss_facts rel y0 y = Some (RowValues v)).
+  Proof.
+    intros tol rel y0 y.
+    assert (H1 : pf_sim_ok gen_plumb_facts = true) by (destruct Hpin as [_ ->]; reflexivity).
+    assert (H2 : pf_worker_ok gen_plumb_facts = true) by (destruct Hpin as [_ ->]; reflexivity).
+    destruct (failure_propagates gen_plumb_facts gen_ss_facts tol rel y0 y H1 H2) as [A B].
+    destruct (success_propagates gen_plumb_facts gen_ss_facts tol rel y0 y H1 H2) as [C D].
+    split; [exact A | split; [exact B | split; [exact C | exact D]]].
   Qed.
 End AtPinned.
 
